@@ -927,8 +927,10 @@ impl Ca {
 						}
 					}
 					self.challs[i].posted.push((req.tx, *env.seq));
-					if self.authzs[az].status == "pending" && self.challs[i].status == "pending" {
-						self.challs[i].status = "processing".into();
+					if self.authzs[az].status == "pending" && !self.authzs[az].validating {
+						if self.challs[i].status != "valid" {
+							self.challs[i].status = "processing".into();
+						}
 						self.authzs[az].validating = true;
 						self.authzs[az].polls_left = self.knobs.polls_authz;
 					}
@@ -1347,7 +1349,12 @@ impl Ca {
 					status: if status == "valid" {
 						"valid".into()
 					} else {
-						"pending".into()
+						let k = &self.knobs.chall_status;
+						match k.get(cid % k.len().max(1)).map(|s| s.as_str()) {
+							Some("processing") => "processing".into(),
+							Some("valid") => "valid".into(),
+							_ => "pending".into(),
+						}
 					},
 					posted: vec![],
 				});
